@@ -65,18 +65,31 @@ Proof.
   eexists _, _. split; [reflexivity|]. cbn. runfold. lra.
 Qed.
 
-Lemma trapall_kernel_unfold (m0 : R) (x : R) (r b c d : list R) :
-  @storage_trap_all_kernel R RArith [] [m0] [x :: r; b; c; d] =
-  let rr := run Rtrapall_step (Some m0) (x :: r) in
-  Some ([snd rr; zeros (snd rr)], [0]).
+Lemma trapall_kernel_unfold (m0 : R) (xs b c d : list R) :
+  @storage_trap_all_kernel R RArith [] [m0] [xs; b; c; d] =
+  let rr := run Rtrapall_step (Some m0) xs in
+  Some ([snd rr; zeros (snd rr)], [@trapall_pack R RArith (fst rr)]).
 Proof.
   unfold storage_trap_all_kernel. destruct (run _ _ _); reflexivity.
 Qed.
 
-(** an empty series makes the Go code index element 0 of an empty array *)
-Lemma trapall_kernel_empty_panics (m0 : R) (b c d : list R) :
-  @storage_trap_all_kernel R RArith [] [m0] [[]; b; c; d] = None.
+(** the packed state is the stock of the machine state: the kernel's final state is
+    what the rate identity calls the stock left *)
+Lemma trapall_pack_is_stock s : @trapall_pack R RArith s = trapall_stock s.
+Proof. destruct s; reflexivity. Qed.
+
+(** an empty series: no output, the stored mass is carried unchanged (fix b73cc97) *)
+Lemma trapall_kernel_empty (m0 : R) (b c d : list R) :
+  @storage_trap_all_kernel R RArith [] [m0] [[]; b; c; d] = Some ([[]; []], [m0]).
 Proof. reflexivity. Qed.
+
+(** after a non-empty run nothing is left in store *)
+Lemma trapall_kernel_nonempty_state (m0 x : R) (r b c d : list R) :
+  exists outs, @storage_trap_all_kernel R RArith [] [m0] [x :: r; b; c; d] = Some (outs, [0]).
+Proof.
+  rewrite trapall_kernel_unfold. cbv zeta. rewrite trapall_final_state by discriminate.
+  eexists; reflexivity.
+Qed.
 
 Example trapall_example :
   @storage_trap_all_kernel R RArith [] [5] [[1; 2]; [0; 0]; [0; 0]; [0; 0]] = Some ([[1 + 5; 2]; [0; 0]], [0]).
